@@ -31,6 +31,7 @@ def declare(rep):
     rep.rule("C19.face-file-counts", "in the face-data file each declared count (CELLS, CELL_DATA, POINT_DATA, array lengths) is accumulated from the same kind of element (nodes / faces) that the emitting loop ranges over", floor=3)
     rep.rule("C19.writer-reentrant", "the two files of a pair are written by concurrent OpenMP sections: no function on their cone formats through a mutable function-local static buffer (the files would contain each other's numbers)", floor=1)
     rep.rule("C19.rows-reach-file", "the statistics rows written by a call of write_data are in the file when the call returns: the std::ofstream they are streamed to is a local (closed when it goes out of scope) or is flushed / closed before the function returns", floor=1)
+    rep.rule("C19.fresh-output", "every directory solver::solver creates for the output files is emptied first: each create_directories(P) is preceded by a remove_all of P or of a folder that contains P - files of an earlier, longer run would otherwise stay next to the new ones (unpaired, with numbers beyond K)", floor=3)
     rep.rule("C19.file-number", "file number = floor(t/S)+1, written only on change, both paths from the same stored number, current population", floor=3)
 
 
@@ -167,9 +168,36 @@ def rows_reach_file(rep, prog):
                           "csv_file_statistics_writer::write_data streams the rows to '%s', which outlives the call, and neither flushes nor closes it: when solver::run returns the statistics file on disk is empty or cut at a buffer boundary until the writer is destroyed (and stays so if the process ends without running the destructor)" % key)
 
 
+def fresh_output(rep, prog):
+    from ..model import expand_text
+    cands = [f for f in prog.fns("solver::solver") if isinstance(f.get("body"), dict) and any(n.get("k") == "CallExpr" and n.get("callee", "").startswith("std::filesystem::create_director") for n in walk(f["body"]))]
+    if len(cands) != 1:
+        raise AnalysisBroken("solver::solver: %d constructors create output directories" % len(cands))
+    fn = cands[0]
+    fi = prog.index(fn)
+    def peel(e):
+        e = strip(e)
+        while e.get("k") in ("CXXConstructExpr", "MaterializeTemporaryExpr", "ImplicitCastExpr", "CXXBindTemporaryExpr", "ExprWithCleanups", "CXXFunctionalCastExpr", "CXXTemporaryObjectExpr") and [c for c in e.get("c", []) if isinstance(c, dict)]:
+            e = strip([c for c in e["c"] if isinstance(c, dict)][0])
+        return e
+    canon = lambda e: expand_text(fn, peel(e)).replace("this->", "").replace("(", "").replace(")", "")
+    rms = [(canon(call_args(n)[0]), n) for n in walk(fn["body"]) if n.get("k") == "CallExpr" and n.get("callee", "").startswith("std::filesystem::remove_all") and call_args(n)]
+    crs = [(canon(call_args(n)[0]), n) for n in walk(fn["body"]) if n.get("k") == "CallExpr" and n.get("callee", "").startswith("std::filesystem::create_director") and call_args(n)]
+    if not crs:
+        raise AnalysisBroken("solver::solver: no create_directories call found")
+    for p_txt, c in crs:
+        cover = [r for q_txt, r in rms if p_txt.startswith(q_txt) and fi.order[id(r)] < fi.order[id(c)] and not [g for g in fi.guards(r) if g not in fi.guards(c)]]
+        if cover:
+            rep.ok("C19.fresh-output", prog, fn, c, "create_directories(%s) after remove_all(%s)" % (p_txt[-40:], canon(call_args(cover[0])[0])[-40:]))
+        else:
+            rep.violation("C19.fresh-output", prog, fn, c, "an output folder is reused without being emptied",
+                          "solver::solver creates '%s' without first removing it (or a folder that contains it): when the output folder already holds the result of an earlier, longer run, its files result_k.vtk with k beyond the last file of this run stay there - the face and cell files are then no longer in pairs numbered 1..K" % p_txt[-60:])
+
+
 def run(rep, prog, tier):
     if not rep.rules:
         declare(rep)
+    fresh_output(rep, prog)
     writer_reentrant(rep, prog)
     rows_reach_file(rep, prog)
     shapes = {}
